@@ -14,6 +14,7 @@ import (
 // ruleTracking: R10.1 (and R02.1, R03.2 via flags). The lifetime switch of
 // setInstance: which tables each lifetime's region writes.
 func ruleTracking(w *World, r *Report, rule string, wantScopedStore, wantTransientNoCache string) {
+	_ = closers(w) // the owners' disposal lists must exist in the form the rule talks about
 	ro := resolveRoles(w)
 	fi := ro.setInstance
 	r.Analysed(fi)
@@ -254,6 +255,9 @@ func ruleListsAppendOnly(w *World, r *Report, rule string, la *LockAnalysis) {
 		con := fmt.Sprintf("%s#%s.%s/%d", unitName(a.Unit), ownerOfField(w, a.Field), a.Field.Name(), n)
 		info := a.Unit.pkg.TypesInfo
 		ok, why := false, "the list is modified other than by appending at its end"
+		if a.Kind == "addr" && addrOnlyResets(w, a) {
+			ok, why = true, "reset (through a private helper that reads the list and sets it to nil)"
+		}
 		if as, isAs := a.Node.(*ast.AssignStmt); isAs && a.Kind == "write" {
 			for i, l := range as.Lhs {
 				if fieldOf(info, l) != a.Field || i >= len(as.Rhs) {
@@ -584,4 +588,59 @@ func helperMustCloseParam(w *World, h *FuncInfo, idx int, kind string) bool {
 		}
 	}
 	return n > 0
+}
+
+// addrOnlyResets: &x.f is an argument of a call to a private function that only
+// reads *p and assigns nil through it (a drain helper).
+func addrOnlyResets(w *World, a *Access) bool {
+	if a.Node == nil || a.Unit == nil {
+		return false
+	}
+	info := a.Unit.pkg.TypesInfo
+	for _, c := range callsIn(a.Node, false) {
+		cal := callee(info, c)
+		if cal == nil || cal.Exported() {
+			continue
+		}
+		if o := cal.Origin(); o != nil {
+			cal = o
+		}
+		t := w.Decls[cal]
+		if t == nil {
+			continue
+		}
+		tinfo := t.Pkg.TypesInfo
+		k := 0
+		for _, fl := range t.Decl.Type.Params.List {
+			for _, nm := range fl.Names {
+				if k < len(c.Args) {
+					if ue, isU := unparen(c.Args[k]).(*ast.UnaryExpr); isU && ue.Op == token.AND && fieldOf(info, ue.X) == a.Field {
+						po := tinfo.Defs[nm]
+						if !assignsNilThrough(tinfo, t, po) {
+							return false
+						}
+						// no other write through the pointer
+						good := true
+						ast.Inspect(t.Decl.Body, func(x ast.Node) bool {
+							if as, ok := x.(*ast.AssignStmt); ok && len(as.Lhs) == len(as.Rhs) {
+								for i, l := range as.Lhs {
+									target := unparen(l)
+									if ix, isIx := target.(*ast.IndexExpr); isIx {
+										target = unparen(ix.X)
+									}
+									if st, isStar := target.(*ast.StarExpr); isStar && objOf(tinfo, st.X) == po && !isNilIdent(tinfo, as.Rhs[i]) {
+										good = false
+									}
+								}
+							}
+							return true
+						})
+						return good
+					}
+				}
+				k++
+			}
+		}
+	}
+	return false
 }
